@@ -67,6 +67,15 @@ def durable_copy_rule(ctx, rid):
                     problem = True
                     rr.bad(ctx.finding(rid, f, c, "%s: `%s` removes the on-disk data before its replacement is in place: a kill (or a failing save) right after it loses everything harvested so far" % (tag, norm(c)[:50]),
                                        construct="remove-before-replace %s" % ("zarr" if eng == "zarr" else "file"), path=tag), tag)
+                # moving the data file itself aside (backup) also leaves a window without any file under its name
+                tmp_srcs = {norm(arg(sc, 1)) for _, sc in saves if arg(sc, 1) is not None}
+                final_names = {norm(arg(rc, 1)) for _, rc in rens if arg(rc, 0) is not None and norm(arg(rc, 0)) in tmp_srcs and arg(rc, 1) is not None}
+                for rn, rc in rens:
+                    srcn = norm(arg(rc, 0)) if arg(rc, 0) is not None else "?"
+                    if srcn not in tmp_srcs and srcn in final_names:
+                        problem = True
+                        rr.bad(ctx.finding(rid, f, rc, "%s: `%s` moves the data file away from its name before the replacement is renamed into place: a kill between the two renames leaves no file under the data name, "
+                                           "the next session starts from nothing and overwrites" % (tag, norm(rc)[:60]), construct="rename-away %s" % ("zarr" if eng == "zarr" else "file"), path=tag), tag)
                 if problem:
                     continue
                 ok = True
